@@ -61,7 +61,11 @@ class BaseRun:
             if te == "t":
                 coords.append(self.real(f"t{tag}"))
             else:
-                coords.append(self.real(f"tau{tag}", "nonneg" if tau_nonneg else "real"))
+                tau = self.real(f"tau{tag}", "nonneg" if tau_nonneg else "real")
+                coords.append(tau)
+                if not tau_nonneg:
+                    # representable: t^2 = mag^2 + sign(tau) tau^2 >= 0 (checked by the caller through decode)
+                    self._signed_tau = getattr(self, "_signed_tau", []) + [tau]
         return self._track(lanes.build(self.classes, system, coords, momentum))
 
     def build(self, system, coords, momentum=False):
@@ -273,6 +277,44 @@ def stratified_assignments(inputs, n, seed=0):
             a[nm] = vals[(k + rnd.randrange(len(vals))) % len(vals)] if k else vals[0]
         out.append(a)
     return out
+
+
+def random_assignments(inputs, n, seed=0):
+    """deterministic pseudo-random replay candidates (replay candidates only): most stratified points
+    fall outside composite domain conditions such as 'booster timelike with E > 0'"""
+    rnd = random.Random(1000 + seed)
+    names = sorted(inputs)
+
+    def draw(kind):
+        u = rnd.random()
+        if kind in ("real", "angle"):
+            return Fraction(round((u - 0.5) * (8 if kind == "real" else 14) * 1000), 1000)
+        if kind == "pos":
+            return Fraction(round((0.05 + 4 * u * u) * 1000), 1000)
+        if kind == "nonneg":
+            return Fraction(0) if u < 0.1 else Fraction(round(3.5 * u * 1000), 1000)
+        if kind == "tol":
+            return Fraction(round(u * u * 600), 1000)
+        if kind == "phi":
+            return Fraction(round((u - 0.5) * 6.2 * 1000), 1000)
+        if kind == "theta":
+            return Fraction(round((0.02 + 3.1 * u) * 1000), 1000)
+        if kind in ("beta", "small"):
+            return Fraction(round((u - 0.5) * 1.96 * 1000), 1000)
+        if kind == "gamma":
+            return Fraction(round((1 + 3 * u) * 1000), 1000) * (1 if rnd.random() < 0.5 else -1)
+        if kind == "nonzero":
+            return Fraction(round((0.1 + 3 * u) * 1000), 1000) * (1 if rnd.random() < 0.5 else -1)
+        return Fraction(1, 2)
+
+    for k in range(n):
+        a = {nm: draw(inputs[nm]) for nm in names}
+        # bias: make time-like configurations likely (t, E large compared with the spatial part)
+        if k % 2 == 0:
+            for nm in names:
+                if nm.startswith("t") and not nm.startswith(("tau", "theta", "tol")) and inputs[nm] == "real":
+                    a[nm] = Fraction(round((3 + 6 * rnd.random()) * 1000), 1000)
+        yield a
 
 
 def model_assignment(ctx, model):
